@@ -236,9 +236,18 @@ func runScript(c *Ctx, seed uint64, pol int, script []scriptOp, withReject bool,
 
 func genC06(c *Ctx) {
 	c.Rep.Rule = "scripted histories (sends, FIFO deliveries, ticks) run twice on identical seeds, once with a rejected message (damaged copy of an in-flight message) inserted at a random point; both runs compared with the abstract machine; oracle: all later observations (plaintexts, outputs, events, state projections) of both parties are identical"
-	n := 6
+	// key-exchange phase: every AKE message x every mutation x both orders, twin runs
+	akeSweep(c, !c.Thorough(), func(with, without *sweepRun) {
+		sweepInert(c, with, without)
+		c.AddScenario(with.s, with.pols)
+	})
+	akeCrossSweep(c, !c.Thorough(), func(with, without *sweepRun) {
+		sweepInert(c, with, without)
+		c.AddScenario(with.s, with.pols)
+	})
+	n := 30
 	if c.Thorough() {
-		n = 150
+		n = 200
 	}
 	for i := 0; i < n; i++ {
 		pol := c.pickVersionPolicy()
